@@ -291,6 +291,20 @@ def h_complex(ctx, what, D, P):
         for i in range(2):
             for j in range(2):
                 ctx.eq(Y[:, :, i, j], els[i][j], 'as_utpm[%d,%d] complex' % (i, j))
+    elif what == 'as_utpm, real entries first':
+        # a real polynomial first, complex ones (and a complex number) after it: the container's type is
+        # the common type of its entries
+        r0 = _vars(ctx, 'r0', (D, P))
+        z1, z2 = _cvars(ctx, 'z1', (D, P)), _cvars(ctx, 'z2', (D, P))
+        zc = ctx.cvar('zc')
+        objs = np.empty(4, dtype=object)
+        objs[0], objs[1], objs[2], objs[3] = mk_utpm(ctx, algopy, r0), cu(z1), zc, cu(z2)
+        Y = plain(UTPM.as_utpm(objs).data)
+        ctx.eq(Y[:, :, 0], r0, 'as_utpm mixed: real entry')
+        ctx.eq(Y[:, :, 1], z1, 'as_utpm mixed: complex entry after a real one')
+        ctx.eq(Y[:, :, 3], z2, 'as_utpm mixed: second complex entry')
+        for p in range(P):
+            ctx.eq(Y[0, p, 2], zc, 'as_utpm mixed: complex number, direction %d' % p)
     elif what == 'combine_blocks':
         b = [[_cvars(ctx, 'b00', (D, P, 1, 1)), _cvars(ctx, 'b01', (D, P, 1, 2))],
              [_cvars(ctx, 'b10', (D, P, 1, 1)), _cvars(ctx, 'b11', (D, P, 1, 2))]]
@@ -320,6 +334,29 @@ def h_misc_containers(ctx, D, P):
                     ctx.eq(Z[:, :, i, j], els[i][j], 'ndarray2utpm[%d][%d]' % (i, j))
     except Exception as e:
         ctx.fact(False, 'ndarray2utpm(nested list) raised %s: %s' % (type(e).__name__, str(e)[:80]))
+    # containers mixing polynomials and plain numbers: a number is the constant polynomial
+    u0, u1 = _vars(ctx, 'mu0', (D, P)), _vars(ctx, 'mu1', (D, P))
+    c0, c1 = ctx.var('mc0'), ctx.var('mc1')
+    for shape in ((4,), (2, 2)):
+        X = np.empty(4, dtype=object)
+        X[0], X[1], X[2], X[3] = mk_utpm(ctx, algopy, u0), c0, mk_utpm(ctx, algopy, u1), c1
+        X = X.reshape(shape)
+        try:
+            Z = plain(UTPM.as_utpm(X).data)
+        except Exception as e:
+            ctx.fact(False, 'as_utpm(container of polynomials and numbers) raised %s: %s' % (type(e).__name__, str(e)[:80]))
+            continue
+        ctx.fact(Z.shape == (D, P) + shape, 'as_utpm(mixed container %s) shape %s' % (shape, Z.shape))
+        if Z.shape != (D, P) + shape:
+            continue
+        Zr = Z.reshape((D, P, 4))
+        ctx.eq(Zr[:, :, 0], u0, 'as_utpm mixed %s: polynomial entry 0' % (shape,))
+        ctx.eq(Zr[:, :, 2], u1, 'as_utpm mixed %s: polynomial entry 2' % (shape,))
+        for k, c in ((1, c0), (3, c1)):
+            for p in range(P):
+                ctx.eq(Zr[0, p, k], c, 'as_utpm mixed %s: number entry %d, coefficient 0, direction %d' % (shape, k, p))
+                for d in range(1, D):
+                    ctx.eq(Zr[d, p, k], 0 * c, 'as_utpm mixed %s: number entry %d, coefficient %d is zero, direction %d' % (shape, k, d, p))
     # a constant (degree-zero) block next to blocks of degree D - 1: zero higher coefficients
     if D > 1:
         b00 = _vars(ctx, 'b00', (D, P, 1, 1))
@@ -513,7 +550,7 @@ def units(tier, seed):
             add('symvec/utpm/n%d,%s' % (n, uplo), 'h_symvec', n=n, uplo=uplo, kind='utpm', D=2, P=2)
     add('containers/D2,P2', 'h_containers', D=2, P=2)
     add('containers/nested lists, blocks of different degree/D3,P2', 'h_misc_containers', D=3, P=2)
-    for what in ('vecsym', 'base_and_dirs', 'as_utpm', 'combine_blocks'):
+    for what in ('vecsym', 'base_and_dirs', 'as_utpm', 'as_utpm, real entries first', 'combine_blocks'):
         add('complex polynomials/%s/D2,P2' % what, 'h_complex', what=what, D=2, P=2)
     add('containers/combine_blocks with a P=1 block/D2,P3', 'h_combine_mixed', D=2, P=3)
     add('dirs/integer-typed directions, non-integer base point/D3,P2', 'h_dirs_intV', D=3, P=2)
